@@ -146,8 +146,7 @@ class RenameModel:
 
     def well_defined(self, current: dict, renames: dict) -> bool:
         """False if the composed map would put two definitions (two kinematic variables,
-        or a kinematic variable and a parameter) or two parameters with different
-        assumptions (no single symbol can preserve both) under one name."""
+        or a kinematic variable and a parameter) under one name."""
         new = compose(current, renames)
         by_image: dict[str, list[str]] = {}
         for orig, img in new.items():
@@ -157,9 +156,16 @@ class RenameModel:
                 continue
             if any(self.roles[o] != "par" for o in origs):
                 return False
-            if len({self.assumptions[o] for o in origs}) > 1:
-                return False
         return True
+
+    def split(self, current: dict) -> bool:
+        """Two parameters with DIFFERENT assumptions share a name: they stay two distinct
+        symbols (assumptions are preserved), are not coupled, and a later rename of that
+        name must move both."""
+        by_image: dict[str, set] = {}
+        for orig, img in current.items():
+            by_image.setdefault(img, set()).add(self.assumptions[orig])
+        return any(len(v) > 1 for v in by_image.values())
 
     def canon(self, current: dict):
         return tuple(sorted((o, n) for o, n in current.items() if o != n))
